@@ -96,6 +96,19 @@ def rand_msg_val(rng, it, stats):
         return ("c", rng.choice([0, 1, 7, 9, 10, 13, 27, 31, 32, 34, 37, 39, 64, 92, 126, 127, 128, 200, 255, -1, 300, 383, -255])
                 if rng.random() < 0.3 else rng.randint(0, 127))
     if k == "F":
+        if rng.random() < 0.12:
+            # one or two ulps next to the declared (fresh-state) default, and values of tiny magnitude: a comparison
+            # with the default that is not exact makes these vanish from the file
+            d = getattr(it, "fresh", None)
+            if d is not None and d[0] == "f" and rng.random() < 0.7:
+                b = d[1]
+                mag = b & 0x7fffffff
+                step = rng.choice([1, 1, 2, -1, -1, -2])
+                if mag + step > 0 and mag + step < 0x7f800000:
+                    stats["near_default_floats"] = stats.get("near_default_floats", 0) + 1
+                    return ("f", (b & 0x80000000) | (mag + step))
+            stats["tiny_floats"] = stats.get("tiny_floats", 0) + 1
+            return ("f", rng.choice([0x00000001, 0x80000001, 0x00800000, 0x80800000, 0x358637bd, 0xb58637bd, 0x33d6bf95]))
         if rng.random() < 0.3:
             return ("f", rng.choice(FLT_EDGE))
         return SA.fval(rng.choice(SA.DYADIC) * rng.choice([1, 1, 1, 4, 100]))
@@ -120,6 +133,35 @@ def rand_msg_val(rng, it, stats):
 def gen_history(rng, app, stats, maxlen, lens=(0, 1, 1, 2, 3, 5, 8, 12, 20)):
     n = rng.choice(list(lens) + [maxlen])
     msgs = []
+    # whole-array assignments: constant runs and arithmetic progressions (what the printer writes as `NxV` / `a b ... c`),
+    # possibly behind a few unrelated leading elements
+    arrays = [w for w in app.walk if w[0] == "a"]
+    if arrays and n and rng.random() < 0.3:
+        for _a in range(rng.choice([1, 1, 2])):
+            _, base, first, cnt = rng.choice(arrays)
+            els = app.insts[first:first + cnt]
+            ek = els[0].kind
+            lead = rng.choice([0, 0, 0, 1, 2]) if cnt > 5 else 0
+            stats["array_runs"] = stats.get("array_runs", 0) + 1
+            shape = rng.choice(["const", "const", "arith", "arith", "arith-"])
+            f = els[0].f
+            lo = f["min"] if f.get("min") is not None else -100
+            hi = f["max"] if f.get("max") is not None else 100
+            ai = rng.randint(lo, max(lo, hi - cnt))
+            af = rng.choice(SA.DYADIC)
+            ab = rng.random() < 0.5
+            for k, it in enumerate(els):
+                if k < lead:
+                    v = rand_msg_val(rng, it, stats)
+                elif ek == "H":
+                    a0 = ai
+                    v = ("i", a0 if shape == "const" else (a0 + (k - lead) if shape == "arith" else a0 + cnt - (k - lead)))
+                elif ek == "F":
+                    a0 = af
+                    v = SA.fval(a0 if shape == "const" else a0 + 0.5 * (k - lead) * (1 if shape == "arith" else -1))
+                else:
+                    v = SA.bval(ab)
+                msgs.append(hmsg(it.addr, v))
     for _ in range(n):
         it = rng.choice(app.insts)
         # toggles that guard sub-trees matter most: bias towards them and towards preset ports
@@ -141,6 +183,7 @@ def prepare(app):
     ps = set()
     for it in app.insts:
         ps |= set(it.parents)
+        it.fresh = app.canon.get(it.idx)
     app.parent_set = ps
 
 
